@@ -24,12 +24,12 @@ DELTA = {"cell::add_node": (1, 0), "cell::create_node": (1, 0), "cell::delete_no
 
 def declare(rep):
     rep.rule("C01.euler-ledger", "every path of split/merge/swap (and replace_node) has dV - dF/2 = 0; branches agree; early exits precede changes", floor=4)
-    rep.rule("C01.free-slot-pairing", "delete_* reset + push on the free queue; add_* pop-or-append and set id/used flag in both branches", floor=4)
-    rep.rule("C01.add-face-siblings", "add_face: both branches register the face on the edges (n1,n2),(n2,n3),(n3,n1), refresh normal/area, set the owner; delete_face looks up the same pairs", floor=2)
+    rep.rule("C01.free-slot-pairing", "delete_*: every path resets the element and queues its slot once; add_*: every path either pops a tested-non-empty queue or appends, sets id and used flag, returns the id", floor=4)
+    rep.rule("C01.add-face-siblings", "add_face: every path registers the face on the edges (n1,n2),(n2,n3),(n3,n1), refresh normal/area, set the owner; delete_face looks up the same pairs", floor=2)
     rep.rule("C01.split-winding", "split_edge: the sub-faces of (x,a,b) keep its orientation: then-branch faces are even, else-branch faces odd permutations of (x,a,b) with the midpoint in place of a or b; the test uses the cached normal of the face x belongs to", floor=2)
     rep.rule("C01.swap-winding", "swap_edge: every new face is wound against a surviving neighbour that shares an edge with it", floor=2)
     rep.rule("C01.normal-follows-winding", "whenever the node order of a face may change (swap_nodes, check_face_winding_order, replace_node) the cached normal/area of that face is refreshed before control leaves the mesh classes", floor=3)
-    rep.rule("C01.worklist-filter", "merge_edge: an edge copy enters the work list only if it mentions none of the nodes replaced and none of the faces deleted by this merge; both insertion sites apply the same filter", floor=2)
+    rep.rule("C01.worklist-filter", "merge_edge: an edge copy enters the work list only if it mentions none of the nodes replaced and none of the faces deleted by this merge; all insertion sites apply the same filter", floor=1)
     rep.rule("C01.rebase", "rebase regenerates the edge set whenever a queue was non-empty; renumbers faces and nodes; remaps node ids of faces", floor=3)
 
 
@@ -141,17 +141,46 @@ def top_level(fn, pred):
     return out
 
 
+def _nonempty_polarity(txt, q):
+    """True if the condition being true means 'queue q is not empty', False for the opposite, None if unrelated."""
+    t = txt.replace(" ", "")
+    while t.startswith("(") and t.endswith(")"):
+        t = t[1:-1]
+    if q not in t:
+        return None
+    if t in ("!%s.empty()" % q, "%s.size()>0" % q, "%s.size()!=0" % q, "%s.size()" % q, "0<%s.size()" % q, "0!=%s.size()" % q):
+        return True
+    if t in ("%s.empty()" % q, "%s.size()==0" % q, "0==%s.size()" % q, "!%s.size()" % q):
+        return False
+    return None
+
+
+def _normal_paths(fn):
+    from .. import paths as P
+    try:
+        ps = P.paths(fn["body"])
+    except P.PathExplosion as e:
+        raise AnalysisBroken("%s: %s" % (fn["qn"], e))
+    return [ev for ev, done in ps if not any(e[0] == "throw" for e in ev)]
+
+
 def pairing(rep, prog):
+    from .. import paths as P
     for qn, reset_callee, queue_fn in (("cell::delete_face", "face::reset", "cell::add_free_face"), ("cell::delete_node", "node::reset", "cell::add_free_node")):
         fns = [f for f in prog.fns(qn) if f["params"] and "unsigned" in f["params"][0]["t"]]
         fn = fns[0]
-        r = [x for x, cond in top_level(fn, lambda n: is_call(n) and n.get("callee") == reset_callee) if not cond]
-        q = [x for x, cond in top_level(fn, lambda n: is_call(n) and n.get("callee") == queue_fn) if not cond]
-        if len(r) == 1 and len(q) == 1:
-            rep.ok("C01.free-slot-pairing", prog, fn, q[0], "%s: element reset and its id pushed on the free queue, unconditionally" % qn.split("::")[1])
+        bad = None
+        n_paths = 0
+        for ev in _normal_paths(fn):
+            n_paths += 1
+            r, q = len(P.calls(ev, reset_callee)), len(P.calls(ev, queue_fn))
+            if (r, q) != (1, 1):
+                bad = (r, q)
+        if bad is None and n_paths:
+            rep.ok("C01.free-slot-pairing", prog, fn, None, "%s: on each of its %d paths the element is reset once and its id pushed once on the free queue" % (qn.split("::")[1], n_paths))
         else:
             rep.violation("C01.free-slot-pairing", prog, fn, None, "%s does not pair reset with the free queue" % qn.split("::")[1],
-                          "%s must unconditionally reset the element (%d) and push its id on the free queue (%d): otherwise the counts (slots - free slots) and the reuse of slots go out of step with the elements marked unused" % (qn, len(r), len(q)))
+                          "%s has a path that resets the element %s time(s) and pushes its id on the free queue %s time(s): otherwise the counts (slots - free slots) and the reuse of slots go out of step with the elements marked unused" % ((qn,) + tuple(bad or ("?", "?"))))
         aq = prog.fn(queue_fn)
         pushes = [n for n in walk(aq["body"]) if n.get("k") == "CXXMemberCallExpr" and n.get("callee", "").endswith("::push_back")]
         want_q = "free_face_queue_" if "face" in queue_fn else "free_node_queue_"
@@ -160,35 +189,48 @@ def pairing(rep, prog):
     for qn, lst, queue, setters in (("cell::add_node", "node_lst_", "free_node_queue_", ("node::set_local_id", "node::set_is_used")),
                                     ("cell::add_face", "face_lst_", "free_face_queue_", ("face::set_local_id", "face::set_is_used"))):
         fn = prog.fn(qn)
-        ifs = [s for s in fn["body"].get("c", []) if s.get("k") == "IfStmt"]
-        ok = False
-        why = "no 'if(!queue.empty()) reuse else append' structure"
-        if len(ifs) == 1 and isinstance(ifs[0].get("else"), dict):
-            c = render(ifs[0]["cond"]).replace(" ", "")
-            reuse, app = ifs[0]["then"], ifs[0]["else"]
-            if c == "!%s.empty()" % queue:
-                def calls(s):
-                    return [n.get("callee", "") for n in walk(s) if is_call(n)]
-                cr, ca = calls(reuse), calls(app)
-                pops = any(x.endswith("::pop_back") for x in cr) and any(x.endswith("::back") for x in cr)
-                push = any(x.endswith("::push_back") for x in ca) and not any(x.endswith("::pop_back") for x in ca)
-                sets = all(s_ in cr for s_ in setters) and all(s_ in ca for s_ in setters)
-                used_true = all(any(is_call(n) and n.get("callee") == setters[1] and strip(call_args(n)[0]).get("v") is True for n in walk(b)) for b in (reuse, app))
-                pop_q = any(n.get("k") == "CXXMemberCallExpr" and n.get("callee", "").endswith("::pop_back") and render(call_obj(n)) == queue for n in walk(reuse))
-                push_l = any(n.get("k") == "CXXMemberCallExpr" and n.get("callee", "").endswith("::push_back") and render(call_obj(n)) == lst for n in walk(app))
-                rets = all(any(x.get("k") == "ReturnStmt" for x in walk(b)) for b in (reuse, app))
-                ok = pops and push and sets and used_true and pop_q and push_l and rets
-                why = "; ".join(w for w, v in (("reuse branch does not take back()/pop_back() of %s" % queue, pops and pop_q), ("append branch does not push_back into %s" % lst, push and push_l), ("id / used flag not set in both branches", sets and used_true), ("a branch does not return the id", rets)) if not v)
-        if ok:
-            rep.ok("C01.free-slot-pairing", prog, fn, ifs[0], "%s: reuse branch pops %s, append branch push_backs; both set the id and the used flag and return the id" % (qn.split("::")[1], queue))
+        why = []
+        kinds = set()
+        for ev in _normal_paths(fn):
+            pops = [c for c in P.calls(ev) if c.get("k") == "CXXMemberCallExpr" and c.get("callee", "").endswith("::pop_back") and render(call_obj(c)) == queue]
+            backs = [c for c in P.calls(ev) if c.get("k") == "CXXMemberCallExpr" and c.get("callee", "").endswith("::back") and render(call_obj(c)) == queue]
+            pushes = [c for c in P.calls(ev) if c.get("k") == "CXXMemberCallExpr" and c.get("callee", "").split("::")[-1] in ("push_back", "emplace_back") and render(call_obj(c)) == lst]
+            pol = [(_nonempty_polarity(render(e[1]), queue), e[2]) for e in ev if e[0] == "cond"]
+            pol = [(a_, b_) for a_, b_ in pol if a_ is not None]
+            nonempty = None
+            if pol:
+                nonempty = (pol[0][0] == pol[0][1])
+            if len(pops) == 1 and len(backs) >= 1 and not pushes:
+                kinds.add("reuse")
+                if nonempty is not True:
+                    why.append("a slot is popped from %s on a path where the queue was not tested to be non-empty" % queue)
+            elif len(pushes) == 1 and not pops:
+                kinds.add("append")
+                if nonempty is not False:
+                    why.append("the element is appended although %s was not tested to be empty (free slots would never be reused)" % queue)
+            else:
+                why.append("a path takes %d slot(s) from %s and appends %d element(s) to %s" % (len(pops), queue, len(pushes), lst))
+            ids = P.calls(ev, setters[0])
+            used = [c for c in P.calls(ev, setters[1]) if strip(call_args(c)[0]).get("v") is True]
+            if not ids:
+                why.append("a path returns without set_local_id on the stored element")
+            if not used:
+                why.append("a path returns without set_is_used(true) on the stored element")
+            if not any(e[0] == "return" for e in ev):
+                why.append("a path does not return the id")
+        if kinds != {"reuse", "append"}:
+            why.append("slot reuse and append paths found: %s" % sorted(kinds))
+        if not why:
+            rep.ok("C01.free-slot-pairing", prog, fn, None, "%s: a path either pops a slot of %s (tested non-empty) or appends (queue empty); every path sets the id and the used flag and returns" % (qn.split("::")[1], queue))
         else:
-            rep.violation("C01.free-slot-pairing", prog, fn, ifs[0] if ifs else None, "%s: %s" % (qn.split("::")[1], why[:70]), "%s: %s" % (qn, why))
+            w = sorted(set(why))
+            rep.violation("C01.free-slot-pairing", prog, fn, None, "%s: %s" % (qn.split("::")[1], w[0][:70]), "%s: %s" % (qn, "; ".join(w)))
 
 
 def edge_pairs(node, kind):
     """unordered node-field pairs used in edge constructions / emplace calls under node"""
     pairs = []
-    for n in walk(node):
+    for n in ([node] if is_call(node) or node.get("k") in ("CXXConstructExpr", "CXXTemporaryObjectExpr") else walk(node)):
         args = None
         if kind == "emplace" and n.get("k") == "CXXMemberCallExpr" and n.get("callee", "").endswith("::emplace") and "edge_set_" in render(call_obj(n)):
             args = call_args(n)
@@ -197,35 +239,46 @@ def edge_pairs(node, kind):
         if args and len(args) >= 2:
             names = []
             for a in args[:2]:
-                m = re.search(r"n([123])_id_$", render(a))
+                m = re.search(r"n([123])_id_?(\(\))?$", render(a))
                 names.append(int(m.group(1)) if m else None)
             pairs.append(frozenset(names))
     return pairs
 
 
 def add_face_siblings(rep, prog):
+    from .. import paths as P
     fn = prog.fn("cell::add_face")
-    ifs = [s for s in fn["body"].get("c", []) if s.get("k") == "IfStmt"]
-    if len(ifs) != 1 or not isinstance(ifs[0].get("else"), dict):
-        rep.violation("C01.add-face-siblings", prog, fn, None, "add_face has no reuse/append branches", "structure of cell::add_face not recognised")
-        return
-    want = [frozenset((1, 2)), frozenset((2, 3)), frozenset((3, 1))]
-    seqs = []
-    for b in (ifs[0]["then"], ifs[0]["else"]):
-        effects = [n.get("callee") for n in walk(b) if is_call(n) and n.get("callee") in ("edge::add_face", "cell::update_face_normal_and_area", "std::enable_shared_from_this<cell>::shared_from_this")]
-        seqs.append((edge_pairs(b, "emplace"), effects))
-    ok = seqs[0] == seqs[1] and sorted(map(sorted, seqs[0][0])) == sorted(map(sorted, want)) and seqs[0][1].count("edge::add_face") == 3 and "cell::update_face_normal_and_area" in seqs[0][1]
-    if ok:
-        rep.ok("C01.add-face-siblings", prog, fn, ifs[0], "both branches: edges (n1,n2),(n2,n3),(n3,n1) emplaced, face added to each, normal/area refreshed, owner set")
+    want = sorted(map(sorted, [frozenset((1, 2)), frozenset((2, 3)), frozenset((3, 1))]))
+    why = []
+    n_paths = 0
+    for ev in _normal_paths(fn):
+        n_paths += 1
+        pairs = []
+        for c in P.calls(ev):
+            pairs += edge_pairs(c, "emplace")
+        reg = P.calls(ev, "edge::add_face")
+        upd = P.calls(ev, "cell::update_face_normal_and_area")
+        own = [e for e in ev if (e[0] == "assign" and render(e[1]["c"][-2]).endswith("owner_cell_")) or (e[0] == "call" and "set_owner" in e[1].get("callee", ""))]
+        if sorted(map(lambda p_: sorted(x for x in p_ if x is not None), pairs)) != want:
+            why.append("a path emplaces the edges %s instead of (n1,n2),(n2,n3),(n3,n1)" % [sorted(x for x in p_ if x is not None) for p_ in pairs])
+        if len(reg) != 3:
+            why.append("a path registers the face on %d edges" % len(reg))
+        if not upd:
+            why.append("a path does not refresh the normal/area of the stored face")
+        if not own:
+            why.append("a path does not set the owner cell of the stored face")
+    if not why and n_paths >= 2:
+        rep.ok("C01.add-face-siblings", prog, fn, None, "on each of the %d paths: edges (n1,n2),(n2,n3),(n3,n1) emplaced, face added to the three, normal/area refreshed, owner set" % n_paths)
     else:
-        rep.violation("C01.add-face-siblings", prog, fn, ifs[0], "add_face branches differ or miss an edge",
-                      "the slot-reuse and the append branch of cell::add_face must both emplace the edges (n1,n2),(n2,n3),(n3,n1), add the face to each of the three, refresh normal/area and set the owner; found reuse: %s / append: %s" % ([sorted(p) for p in seqs[0][0]], [sorted(p) for p in seqs[1][0]]))
+        w = sorted(set(why)) or ["only %d path(s) found" % n_paths]
+        rep.violation("C01.add-face-siblings", prog, fn, None, "add_face: %s" % w[0][:70],
+                      "every path of cell::add_face (slot reuse and append) must emplace the edges (n1,n2),(n2,n3),(n3,n1), add the face to each of the three, refresh normal/area and set the owner: %s" % "; ".join(w))
     df = [f for f in prog.fns("cell::delete_face") if "unsigned" in f["params"][0]["t"]][0]
     pairs = edge_pairs(df, "find")
-    if sorted(map(sorted, pairs)) == sorted(map(sorted, want)):
+    if sorted(map(sorted, pairs)) == want:
         rep.ok("C01.add-face-siblings", prog, df, None, "delete_face looks up the edges (n1,n2),(n2,n3),(n3,n1)")
     else:
-        rep.violation("C01.add-face-siblings", prog, df, None, "delete_face looks up the wrong edges", "cell::delete_face must remove the face from the edges (n1,n2),(n2,n3),(n3,n1); found %s" % [sorted(p) for p in pairs])
+        rep.violation("C01.add-face-siblings", prog, df, None, "delete_face looks up the wrong edges", "cell::delete_face must remove the face from the edges (n1,n2),(n2,n3),(n3,n1); found %s" % [sorted(x for x in p_ if x is not None) for p_ in pairs])
 
 
 def rebase(rep, prog):
@@ -609,7 +662,7 @@ def worklist_filter(rep, prog):
                 if p_.get("k") == "IfStmt" and slot == "then":
                     conj += _conjuncts(p_["cond"])
             sites.append((c, ev, conj))
-    if len(sites) < 2:
+    if len(sites) < 1:
         raise AnalysisBroken("merge_edge: %d filtered insertions into the work list" % len(sites))
     for c, ev, conj in sites:
         want = ["!%s.has_node(%s)" % (ev, n) for n in gone_nodes] + ["!%s.has_face(%s)" % (ev, f) for f in gone_faces]
@@ -619,5 +672,5 @@ def worklist_filter(rep, prog):
                           "merge_edge line %s inserts the edge copy %s into the work list without requiring %s: copies that still carry a node replaced or a face deleted by this merge are stale (set::insert does not overwrite them with the corrected copy) and a later operation on them opens the surface" % (c.get("l"), ev, " && ".join(missing)))
         else:
             rep.ok("C01.worklist-filter", prog, fn, c, "insertion guarded by " + " && ".join(want))
-    if len({tuple(sorted(cj)) for _, _, cj in sites}) != 1:
+    if len({tuple(sorted(cj)) for _, _, cj in sites}) > 1:
         rep.violation("C01.worklist-filter", prog, fn, sites[1][0], "the two insertion sites filter differently", "merge_edge: the filters of the work-list insertions differ: %s" % [cj for _, _, cj in sites])
